@@ -122,6 +122,44 @@ def sqlite_roundtrip(live):
     return out
 
 
+def straight_line(cfg, auto, ops):
+    """Re-execute one history inside ONE folder (the BFS gives every transition its own folder copy, which hides state that the
+    implementation keeps per folder path): restore == live after every write, restore == saved state after every restore."""
+    out = []
+    with C.scratch() as root:
+        F = root / "F"
+        live = C.build(dict(cfg, saving_folder=str(F)) if auto else cfg)
+        cur_cfg, saved = cfg, None
+        for i, op in enumerate(ops):
+            wrote = False
+            try:
+                if op in ("c1", "c2"):
+                    with quiet():
+                        live.calibrate(int(op[1]))
+                    wrote = live.saving_folder is not None
+                elif op == "k":
+                    with quiet():
+                        live.create_checkpoint(str(F))
+                    wrote = True
+                elif op == "r":
+                    live = C.restore(F, cur_cfg)
+                    if saved is not None and C.state(live) != saved:
+                        return [("restored-state-differs:straight-line", f"ops={ops[:i + 1]} in one folder: restore(F) differs from the state that was saved: {diff(saved, C.state(live))[:3]}")]
+                else:
+                    return out   # new-run histories are covered by the BFS
+            except Exception as e:  # noqa: BLE001
+                return [("operation-raises:" + op, f"straight-line ops={ops[:i + 1]}: {type(e).__name__}: {e}")]
+            if wrote:
+                saved = C.state(live)
+                try:
+                    rest = C.restore(F, cur_cfg)
+                except Exception as e:  # noqa: BLE001
+                    return [("restore-raises", f"straight-line ops={ops[:i + 1]}: {type(e).__name__}: {e}")]
+                if C.state(rest) != saved:
+                    return [("restored-state-differs:straight-line", f"ops={ops[:i + 1]} in one folder: restore(F) differs from the live object: {diff(saved, C.state(rest))[:3]}")]
+    return out
+
+
 NEW_RUNS = {
     "n:seed": lambda cfg: dict(cfg, seed=cfg.get("seed", 0) + 17),
     "n:lineup": lambda cfg: dict(cfg, lineup=[{"cls": "RandomUniform", "bs": 2}, {"cls": "RSequence", "bs": 2}]),
@@ -155,12 +193,12 @@ def bfs(cell):
 
         d0 = new_dir()
         live0 = C.build(dict(cfg, saving_folder=str(d0 / "F")) if auto else cfg)
-        frontier = [(live0, d0, [], cfg, False)]
+        frontier = [(live0, d0, [], cfg, False, None)]
         seen = {(hash(C.state(live0)), ("empty",))}
         ops_all = ["c1", "c2", "k", "r"] + list(cell.get("new_runs", []))
         for level in range(depth):
             nxt = []
-            for live, d, hist, cur_cfg, used_new in frontier:
+            for live, d, hist, cur_cfg, used_new, saved in frontier:
                 for op in ops_all:
                     F = d / "F"
                     if op == "r" and not (F / "calibration_params.json").exists():
@@ -216,6 +254,17 @@ def bfs(cell):
                             viol("operation-raises:" + op, f"{type(e).__name__}: {e}", h2)
                         continue
                     res["evaluations"] += 1
+                    saved2 = saved
+                    if op == "r" and saved is not None:
+                        # a restore from an UNCHANGED folder gives back the state that was saved into it - however often it is read and
+                        # whatever earlier restored objects have done in the meantime
+                        st_r = C.state(l2)
+                        if st_r != saved:
+                            viol("restored-state-differs:second-restore" if hist.count("r") else "restored-state-differs:on-restore",
+                                 f"restore(F) from an unchanged folder differs from the state that was saved: {diff(saved, st_r)[:3]}", h2)
+                            continue
+                    if wrote:
+                        saved2 = C.state(l2)
                     if wrote:
                         res["traces"] += 1
                         res["nontrivial"] += 1
@@ -231,9 +280,16 @@ def bfs(cell):
                     if key in seen:
                         continue
                     seen.add(key)
-                    nxt.append((l2, d2, h2, cfg2, used_new or op.startswith("n:")))
+                    nxt.append((l2, d2, h2, cfg2, used_new or op.startswith("n:"), saved2))
             frontier = nxt
         res["states"] = len(seen)
+        # straight-line re-execution of maximal histories without a new run, each inside a single folder
+        leaves = [h for (_l, _d, h, _c, used, _s) in frontier if not used][: cell.get("max_leaves", 40)]
+        for h in leaves:
+            for key, what in straight_line(cfg, auto, h):
+                viol(key, what, h)
+            res["evaluations"] += 1
+            st["straight_line_histories"] = st.get("straight_line_histories", 0) + 1
         res["outcomes"] = [("depth", depth, "auto", auto, "states", len(seen))]
         res["samples"] = [{"lineup": [s["cls"] for s in cfg["lineup"]], "auto_save": auto, "example_history": frontier[0][2] if frontier else []}]
     return res
@@ -303,7 +359,149 @@ def float_cell(cell):
     return res
 
 
+def long_cell(cell):
+    """Larger-scope probe: one long run (well over 64 rows, batch sizes > 1), checkpointed at the end and restored."""
+    res = {"evaluations": 0, "nontrivial": 0, "states": 0, "transitions": 0, "traces": 0, "stats": {}, "outcomes": set(), "violations": [], "samples": []}
+    cfg = cell["cfg"]
+    for auto in (True, False):
+        with C.scratch() as root:
+            F = root / "F"
+            live = C.build(dict(cfg, saving_folder=str(F)) if auto else cfg)
+            with quiet():
+                live.calibrate(cell["batches"])
+                if not auto:
+                    live.create_checkpoint(str(F))
+            res["evaluations"] += 1
+            res["traces"] += 1
+            res["nontrivial"] += 1
+            res["transitions"] += cell["batches"]
+            for key, what in check_written(live, F, cfg, "n/a", False):
+                if sum(1 for x in res["violations"] if x["key"] == key) < 1:
+                    res["violations"].append({"key": key, "what": f"[long run of {cell['batches']} batches, {live.n_sampled_params} rows, auto_save={auto}] {what}", "case": {"mode": "long", "cfg": cfg, "batches": cell["batches"]}})
+            res["stats"]["long_run_rows"] = max(res["stats"].get("long_run_rows", 0), int(live.n_sampled_params))
+    res["states"] = 2
+    res["outcomes"] = [("long", cell["batches"])]
+    return res
+
+
+def straight_cell(cell):
+    """Every sequence over {calibrate(1), create_checkpoint, restore} up to a length bound, executed straight-line in ONE folder and
+    WITHOUT state deduplication (so that repeated restores of an unchanged folder, and anything the implementation remembers per
+    folder path or per process, are exercised)."""
+    import itertools
+
+    res = {"evaluations": 0, "nontrivial": 0, "states": 0, "transitions": 0, "traces": 0, "stats": {}, "outcomes": set(), "violations": [], "samples": []}
+    cfg, auto = cell["cfg"], cell["auto"]
+    for L in range(1, cell["length"] + 1):
+        for ops in itertools.product(("c1", "k", "r"), repeat=L):
+            if ops[0] != cell["first"] or ops[-1] == "k" and L > 1 and ops[-2] == "k":
+                continue
+            # a restore needs something in the folder
+            have, ok = False, True
+            for o in ops:
+                if o == "k" or (o == "c1" and auto):
+                    have = True
+                if o == "r" and not have:
+                    ok = False
+                    break
+            if not ok:
+                continue
+            res["evaluations"] += 1
+            res["traces"] += 1
+            res["transitions"] += L
+            if ops.count("r") >= 2:
+                res["nontrivial"] += 1
+            for key, what in straight_line(cfg, auto, list(ops)):
+                if sum(1 for x in res["violations"] if x["key"] == key) < 1:
+                    res["violations"].append({"key": key, "what": f"[auto_save={auto}] {what}", "case": {"cfg": cfg, "auto": auto, "ops": list(ops)}})
+    res["states"] = res["evaluations"]
+    res["outcomes"] = [("straight", cell["first"], auto)]
+    res["samples"] = [{"ops": ["c1", "k", "r", "c1", "r"], "auto_save": auto}]
+    return res
+
+
+class _InjectedIOError(OSError):
+    pass
+
+
+def iofault_cell(cell):
+    """An OSError at the k-th file opened for writing while calibrate() checkpoints: either calibrate() raises, or - if it returns -
+    the folder holds the state it returned with."""
+    import builtins
+    import io
+
+    import black_it.utils.json_pandas_checkpointing as jp
+
+    res = {"evaluations": 0, "nontrivial": 0, "states": 0, "transitions": 0, "traces": 0, "stats": {}, "outcomes": set(), "violations": [], "samples": []}
+    cfg = cell["cfg"]
+    k = 0
+    while True:
+        with C.scratch() as root:
+            F = root / "F"
+            live = C.build(dict(cfg, saving_folder=str(F)))
+            count = [0]
+            real_open, real_io_open, real_h5 = builtins.open, io.open, jp.h5py
+
+            def guard(path, mode):
+                if str(path).startswith(str(root)) and any(c in mode for c in "wax+"):
+                    i = count[0]
+                    count[0] += 1
+                    if i == k:
+                        raise _InjectedIOError(f"injected I/O error at write-open #{k} ({path})")
+
+            def my_open(file, mode="r", *a, **kw):
+                if not isinstance(file, int):
+                    guard(file, mode)
+                return real_open(file, mode, *a, **kw)
+
+            class H5:
+                def __getattr__(self, name):
+                    return getattr(real_h5, name)
+
+                def File(self, path, mode="r", **kw):  # noqa: N802
+                    guard(path, mode)
+                    return real_h5.File(path, mode=mode, **kw)
+
+            builtins.open = io.open = my_open
+            jp.h5py = H5()
+            raised = None
+            try:
+                with quiet():
+                    live.calibrate(cell["batches"])
+            except Exception as e:  # noqa: BLE001
+                raised = e
+            finally:
+                builtins.open, io.open, jp.h5py = real_open, real_io_open, real_h5
+            if count[0] <= k:
+                break   # fewer write-opens than k: every position has been tried
+            res["evaluations"] += 1
+            res["traces"] += 1
+            res["nontrivial"] += 1
+            res["outcomes"].add(("io-fault", "raised" if raised is not None else "returned"))
+            if raised is None:
+                try:
+                    rest = C.restore(F, cfg)
+                    ok = C.state(rest, with_folder=True) == C.state(live, with_folder=True)
+                    why = "" if ok else f": {diff(C.state(live, with_folder=True), C.state(rest, with_folder=True))[:3]}"
+                except Exception as e:  # noqa: BLE001
+                    ok, why = False, f": restore raised {type(e).__name__}: {e}"
+                if not ok:
+                    if sum(1 for x in res["violations"] if x["key"] == "returned-although-checkpoint-failed") < 1:
+                        res["violations"].append({"key": "returned-although-checkpoint-failed", "what": f"an I/O error at write-open #{k} during calibrate({cell['batches']}) was not propagated and the folder does not hold the returned state{why}",
+                                                  "case": {"mode": "iofault", "cfg": cfg, "batches": cell["batches"], "k": k}})
+        k += 1
+    res["states"] = k
+    res["stats"]["io_fault_positions"] = k
+    return res
+
+
 def run_cell(cell):
+    if cell["kind"] == "straight":
+        return straight_cell(cell)
+    if cell["kind"] == "long":
+        return long_cell(cell)
+    if cell["kind"] == "iofault":
+        return iofault_cell(cell)
     return float_cell(cell) if cell["kind"] == "floats" else bfs(cell)
 
 
@@ -311,8 +509,17 @@ def replay_case(case):
     if case.get("mode") == "floats":
         r = float_cell({})
         return [{"key": v["key"], "what": v["what"]} for v in r["violations"]]
+    if case.get("mode") == "long":
+        r = long_cell({"cfg": case["cfg"], "batches": case["batches"]})
+        return [{"key": v["key"], "what": v["what"]} for v in r["violations"]]
+    if case.get("mode") == "iofault":
+        r = iofault_cell({"cfg": case["cfg"], "batches": case["batches"]})
+        return [{"key": v["key"], "what": v["what"]} for v in r["violations"]]
     # re-execute the single history straight-line (no BFS)
     cfg, auto, ops = case["cfg"], case["auto"], case["ops"]
+    sl = straight_line(cfg, auto, ops)
+    if sl:
+        return [{"key": k, "what": w} for k, w in sl]
     out = []
     with C.scratch() as root:
         F = root / "F"
@@ -378,6 +585,11 @@ def main(ctx):
     # larger-scope probe: four samplers, batch sizes up to 8, ensemble 4, longer series
     cells.append({"kind": "bfs", "cfg": {"lineup": [{"cls": "Halton", "bs": 8}, {"cls": "BestBatch", "bs": 5}, {"cls": "ParticleSwarm", "bs": 4}, {"cls": "RSequence", "bs": 3}], "seed": S, "dims": 4, "model": "gauss2", "ensemble": 4, "T": 60},
                   "depth": 3, "auto": True, "new_runs": ["n:seed"]})
+    for auto in (False, True):
+        for first in ("c1", "k"):
+            cells.append({"kind": "straight", "cfg": {"lineup": lineups[0], "seed": S, "dims": 2, "model": "gauss2", "ensemble": 1}, "auto": auto, "first": first, "length": 5 if ctx.quick else 6})
+    cells.append({"kind": "long", "cfg": {"lineup": [{"cls": "Halton", "bs": 8}, {"cls": "BestBatch", "bs": 5}, {"cls": "RandomUniform", "bs": 4}], "seed": S, "dims": 2, "model": "gauss2", "ensemble": 1}, "batches": 24})
+    cells.append({"kind": "iofault", "cfg": {"lineup": lineups[0], "seed": S, "dims": 2, "model": "gauss2", "ensemble": 1}, "batches": 2})
     # RL scheduler
     cells.append({"kind": "bfs", "cfg": {"lineup": lineups[0], "seed": S, "dims": 2, "model": "gauss2", "ensemble": 1, "scheduler": {"eps": 0.3, "agent_seed": 1}}, "depth": 2, "auto": True, "new_runs": []})
     ctx.bounds = {"depth": depth, "ops": ["calibrate(1)", "calibrate(2)", "create_checkpoint", "restore", "new run in same folder (seed/line-up/batch size/ensemble variants)"],
